@@ -361,6 +361,13 @@ def wl_ikron(rng, rec, tier):
     else:
         r, c = int(rng.integers(1, 4)), int(rng.integers(1, 4))
         d = int(rng.integers(2, 4))
+        while d ** (r * c) > 1024:
+            # keep the dense result (D x D complex) in the tens of megabytes: a
+            # 3x3 grid of qutrits is 6 GB per call and gets the shard OOM-killed
+            if c >= r:
+                c -= 1
+            else:
+                r -= 1
         dims2 = [[d] * c for _ in range(r)]
         k = int(rng.integers(1, min(3, r * c) + 1))
         cells = [divmod(int(x), c) for x in rng.choice(r * c, size=k, replace=False)]
